@@ -1,10 +1,12 @@
 (* Extract.v — extraction of the executable model to OCaml.  ExtrOcamlBasic only
    (bool, option, unit, prod, list, sumbool -> OCaml's); N, positive, nat, Z stay the
    extracted inductives.  No Extract Constant. *)
-From Zvt Require Import Base Length Cp437 Encoding Codec Lookup Transport Sequence SeqLookup.
+From Zvt Require Import Base Length Cp437 Encoding Codec Lookup Transport Sequence SeqLookup Client.
+From Zvt.gen Require Import Tables.
 From Coq Require Import ExtrOcamlBasic.
 Extraction Language OCaml.
 Extraction "model.ml" len_ser len_de prim_enc prim_dec tag_enc tag_dec framed_dec framed_enc
   dec enc dec_cmd enc_cmd dec_plain enc_struct parse_enum run_dec run_enc run_enum
   read_frame read_frames read_frame_chunks flat
-  run_seq_named run_upload_named.
+  run_seq_named run_upload_named
+  run_history error_table.
